@@ -946,7 +946,7 @@ func (s *Ser) function(f *ir.Function) string {
 	if f.Recover != nil {
 		rec = fmt.Sprintf("(Some %d%%N)", f.Recover.Index)
 	}
-	return fmt.Sprintf("  (* %d: %s *)\n  mkFunc %d %s %s %d [%s] [\n%s] %s", s.fidx[f], strings.ReplaceAll(f.String(), "*)", "* )"), name, plist(params), plist(fvs),
+	return fmt.Sprintf("  (* %d: %s *)\n  mkFunc %d %s %s %d [%s] [\n%s] %s", s.fidx[f], strings.ReplaceAll(strings.ReplaceAll(f.String(), "*)", "* )"), "(*", "( *"), name, plist(params), plist(fvs),
 		res.Len(), strings.Join(zr, "; "), strings.Join(blocks, ";\n"), rec)
 }
 
